@@ -89,3 +89,12 @@ Fixpoint connects (ord : list str -> list str) (cfg : cap_cfg) (port : Z) (s : s
   | [] => []
   | c :: r => let res := start_conn ord cfg port s c in res :: connects ord cfg port (snd res) r
   end.
+
+(* the policy held when the k-th of these calls starts *)
+Fixpoint policies_before (ord : list str -> list str) (cfg : cap_cfg) (port : Z) (s : strict_transport)
+         (calls : list (list conn_script)) : list strict_transport :=
+  match calls with
+  | [] => []
+  | c :: r => s :: policies_before ord cfg port (snd (start_conn ord cfg port s c)) r
+  end.
+
